@@ -105,6 +105,8 @@ class Conv:
             return [0, [1, self.n(st[1]), [self.e(a) for a in st[2]]]]
         if k == 'lcall':
             return [0, [2, self.lf.index(st[1]), [self.e(a) for a in st[2]]]]
+        if k == 'exit':
+            return [0, [7]]
         if k == 'setmenuprop':
             return [0, [6, S.MENUITEM_PROPS.index(st[1]), self.e(st[2]), self.e(st[3]), self.e(st[4])]]
         if k == 'setaccessor':
